@@ -79,11 +79,97 @@ fn main() {
                     Err(_) => "err".to_string(),
                 }
             }
+            // encoder corpus: "tt <kind> <n>" -> hex of a whole message (typed untyped-API path), "tn <kind> <n>" native path
+            "tt" => {
+                use candid::types::value::{IDLArgs, IDLField, IDLValue, VariantValue};
+                use candid::types::{Field, Label, Type, TypeEnv, TypeInner};
+                let n: usize = p[2].parse().unwrap();
+                let (ty, val): (Type, IDLValue) = match p[1].as_str() {
+                    "optchain" => {
+                        let mut t: Type = TypeInner::Nat8.into();
+                        for _ in 0..n { t = TypeInner::Opt(t).into(); }
+                        (t, IDLValue::None)
+                    }
+                    "vecchain" => {
+                        let mut t: Type = TypeInner::Nat16.into();
+                        for _ in 0..n { t = TypeInner::Vec(t).into(); }
+                        (t, IDLValue::Vec(vec![]))
+                    }
+                    "text" => (TypeInner::Text.into(), IDLValue::Text("a".repeat(n))),
+                    "blob" => (TypeInner::Vec(TypeInner::Nat8.into()).into(), IDLValue::Blob(vec![7u8; n])),
+                    "vecnat16" => (TypeInner::Vec(TypeInner::Nat16.into()).into(),
+                        IDLValue::Vec((0..n).map(|i| IDLValue::Nat16(i as u16)).collect())),
+                    "rec" => {
+                        let fs: Vec<Field> = (0..n).map(|i| Field { id: Label::Id(3 * i as u32).into(), ty: TypeInner::Nat8.into() }).collect();
+                        let vs: Vec<IDLField> = (0..n).map(|i| IDLField { id: Label::Id(3 * i as u32), val: IDLValue::Nat8(i as u8) }).collect();
+                        (TypeInner::Record(fs).into(), IDLValue::Record(vs))
+                    }
+                    "var" => {
+                        let fs: Vec<Field> = (0..n).map(|i| Field { id: Label::Id(2 * i as u32).into(), ty: TypeInner::Null.into() }).collect();
+                        let f = IDLField { id: Label::Id(2 * (n as u32 - 1)), val: IDLValue::Null };
+                        (TypeInner::Variant(fs).into(), IDLValue::Variant(VariantValue(Box::new(f), (n - 1) as u64)))
+                    }
+                    _ => return "bad".to_string(),
+                };
+                match IDLArgs::new(&[val]).to_bytes_with_types(&TypeEnv::new(), &[ty]) {
+                    Ok(b) => format!("ok {}", hexe(&b)),
+                    Err(e) => format!("err {}", e),
+                }
+            }
+            "tn" => {
+                let n: usize = p[2].parse().unwrap();
+                let r = match p[1].as_str() {
+                    "text" => candid::encode_one("a".repeat(n)),
+                    "blob" => candid::encode_one(vec![7u8; n]),
+                    "vecnat16" => candid::encode_one((0..n).map(|i| i as u16).collect::<Vec<u16>>()),
+                    "vecnat" => candid::encode_one((0..n).map(|i| Nat::from(i as u64)).collect::<Vec<Nat>>()),
+                    _ => return "bad".to_string(),
+                };
+                match r { Ok(b) => format!("ok {}", hexe(&b)), Err(e) => format!("err {}", e) }
+            }
+            // quota corpus: "q <case> <dq|-> <sq|->" decodes message #case at its Rust type under the given quotas
+            "q" => quota_case(p[1].parse().unwrap(), &p[2], &p[3]),
             _ => "bad".to_string(),
         });
         match r {
             Ok(s) => println!("{}", s),
             Err(_) => println!("panic"),
         }
+    }
+}
+
+
+candid::define_function!(pub EchoFn : (u8) -> (u8) query);
+
+#[derive(candid::CandidType, candid::Deserialize, Debug, PartialEq)]
+struct Big { a: u8, b: String, c: Vec<u16>, d: Option<Vec<String>> }
+#[derive(candid::CandidType, candid::Deserialize, Debug, PartialEq)]
+struct Small { a: u8 }
+
+fn quota_case(case: usize, dq: &str, sq: &str) -> String {
+    use candid::utils::{decode_args_with_config_debug, ArgumentEncoder};
+    use candid::{DecoderConfig, Principal};
+    let mut cfg = DecoderConfig::new();
+    if dq != "-" { cfg.set_decoding_quota(dq.parse().unwrap()); }
+    if sq != "-" { cfg.set_skipping_quota(sq.parse().unwrap()); }
+    fn show<T: std::fmt::Debug>(r: candid::Result<(T, DecoderConfig)>) -> String {
+        match r {
+            Ok((v, c)) => format!("ok {:?} | {:?} {:?}", v, c.decoding_quota, c.skipping_quota),
+            Err(e) => { let m = format!("{:?}", e).replace('\n', " "); format!("err {}", if m.contains("exceeds the limit") { "QUOTA" } else { &m[..m.len().min(160)] }) }
+        }
+    }
+    let f = EchoFn::new(Principal::from_slice(&[1, 2, 3]), "echo".to_string());
+    match case {
+        0 => { let b = candid::encode_args((7u32, "surplus ".repeat(10))).unwrap(); show(decode_args_with_config_debug::<(u32,)>(&b, &cfg)) }
+        1 => { let b = candid::encode_args((7u8, vec![(); 300], "x".to_string())).unwrap(); show(decode_args_with_config_debug::<(u8,)>(&b, &cfg)) }
+        2 => { let b = candid::encode_args((Some("abc".to_string()),)).unwrap(); show(decode_args_with_config_debug::<(Option<u32>,)>(&b, &cfg)) }
+        3 => { let b = candid::encode_args((vec![1u64; 50],)).unwrap(); show(decode_args_with_config_debug::<(Vec<u64>,)>(&b, &cfg)) }
+        4 => { let v = Big { a: 1, b: "text".into(), c: vec![1u16; 30], d: Some(vec!["x".into(); 5]) };
+               let b = candid::encode_args((v,)).unwrap(); show(decode_args_with_config_debug::<(Small,)>(&b, &cfg)) }
+        5 => { let b = candid::encode_args((f,)).unwrap(); show(decode_args_with_config_debug::<(EchoFn,)>(&b, &cfg)) }
+        6 => { let b = candid::encode_args((Some(f), 5u8)).unwrap(); show(decode_args_with_config_debug::<(Option<EchoFn>, u8)>(&b, &cfg)) }
+        7 => { let b = candid::encode_args((vec![Some(candid::Nat::from(5u8)); 20], candid::Int::from(-3))).unwrap();
+               show(decode_args_with_config_debug::<(Vec<Option<candid::Int>>,)>(&b, &cfg)) }
+        _ => "bad".to_string(),
     }
 }
